@@ -264,30 +264,29 @@ def session(rng, tier, n=None, length=None, calm=False):
 
 
 def exhaustive(rng):
-    """all schedules of <= 6 transport events for 2 brokers around a fixed burst on one channel"""
+    """small scope, exhaustively: 2 brokers, one connection, one channel; every schedule of exactly 6 events made of the
+    client history sub@5, unsub@7, sub@10 (in this order) and 3 transport events out of {pick, deliver, deliver-and-keep,
+    full-state gossip} on link 1->2, in every interleaving (20 x 4^3 = 1280 sessions), each followed by quiescence"""
     ops = []
-    alphabet = ["pick 1 2 1", "deliver 1 2 0 -", "gossip 1 2", "deliver 1 2 1 -", "pick 2 1 2", "deliver 2 1 0 -"]
-    client = ["clock 5", "sub c1 612f", "clock 7", "unsub c1 612f", "clock 10", "sub c1 612f", "clock 12", "unsub c1 612f"]
-    # the client ops keep their order; transport events are interleaved in every possible way (sampled down to a budget)
-    combos = list(itertools.product(range(len(alphabet)), repeat=4))
-    rng.shuffle(combos)
-    for combo in combos[:400]:
-        slots = sorted(rng.randrange(0, len(client) // 2 + 1) for _ in combo)
-        ops.append("reset 2 emitter %s %d %d" % (SPEC, CONTRACT, SIGN))
-        ops += ["conn 1 p1 901", "conn 2 p2 902", "conn 1 c1 3", "conn 2 c2 3"]
-        ci = 0
-        for k, t in zip(slots, combo):
-            while ci < 2 * k:
-                ops.append(client[ci]); ci += 1
-            ops.append(alphabet[t])
-        ops += client[ci:]
-        ops += ["drain", "gossip 1 2", "gossip 2 1", "drain", "quiesce", "qdump 1", "qdump 2", "qpub p2 612f 0001", "qpub p1 612f 0002"]
+    client = [["clock 5", "sub c1 612f"], ["clock 7", "unsub c1 612f"], ["clock 10", "sub c1 612f"]]
+    transport = ["pick 1 2 1", "deliver 1 2 0 -", "deliver 1 2 1 -", "gossip 1 2"]
+    for pos in itertools.combinations(range(6), 3):
+        for combo in itertools.product(range(4), repeat=3):
+            ops.append("reset 2 emitter %s %d %d" % (SPEC, CONTRACT, SIGN))
+            ops += ["conn 1 p1 901", "conn 2 p2 902", "conn 1 c1 3"]
+            ci, ti = 0, 0
+            for slot in range(6):
+                if slot in pos:
+                    ops += client[ci]; ci += 1
+                else:
+                    ops.append(transport[combo[ti]]); ti += 1
+            ops += ["drain", "gossip 1 2", "gossip 2 1", "drain", "quiesce", "qdump 2", "qpub p2 612f 0001"]
     return ops
 
 
 def gen(rng, tier):
     ops = []
-    for _ in range(budget(tier, 36, 1500)):
+    for _ in range(budget(tier, 36, 400)):
         ops += session(rng, tier, calm=(rng.randrange(3) == 0))
     if tier == "thorough":
         ops += exhaustive(rng)
